@@ -39,7 +39,8 @@ pub fn run(shard: &Shard) -> i32 {
     let total = grid * cfgs.len() as u64;
     let stride = if shard.quick() { 7 } else { 1 };
     let grid_shard = Shard { budget: shard.budget / 3, ..shard.clone() };
-    case_loop(&grid_shard, total / stride, |i, _rng| {
+    let grid_shard = Shard { only_case: None, ..grid_shard };
+    case_loop(&grid_shard, if shard.only_case.is_some() { 0 } else { total / stride }, |i, _rng| {
         let j = i * stride + (shard.seed % stride);
         let (gi, ci) = (j / cfgs.len() as u64, (j % cfgs.len() as u64) as usize);
         let (cfg, variant) = cfgs[ci].clone();
